@@ -256,7 +256,7 @@ class Stream(APIRegisterMixin):
 
         self._set_asynchronous(asynchronous)
         self._set_loop(loop)
-        if ensure_io_loop and not self.loop:
+        if ensure_io_loop and not self.loop and self.asynchronous is None:
             self._set_asynchronous(False)
         if self.loop is None and self.asynchronous is not None:
             self._set_loop(get_io_loop(self.asynchronous))
